@@ -24,7 +24,28 @@ def spec_name(sp):
     return '%s p%s m%s %s%s%s' % (sp['kind'], ','.join(map(str, sp['degs'])), ','.join(str(m) for m in sp['mults']), 'rat' if sp['rational'] else 'nonrat', dom, ' scaled' if sp.get('scaled') else '')
 
 
-def build(cx, sp, **kw):
+def sibling_spec(sp):
+    """another shape of the same kind / degrees / rationality with a different knot layout and its own control net:
+    the earlier customer of the same process in the "after a sibling" histories (memo keys, module state)"""
+    mults = []
+    for p, m in zip(sp['degs'], sp['mults']):
+        m = tuple(m) if not isinstance(m, str) else ()
+        mults.append((1,) + tuple(reversed(m)) if len(m) < 2 else tuple(reversed(m))[:-1] + (min(p, m[0] + 1),))
+    out = spec(sp['kind'], sp['degs'], mults, dim=sp['dim'], rational=sp['rational'], doms=sp.get('doms'))
+    return out
+
+
+def prime_with_sibling(cx, sp, op, **kw):
+    """run `op` on a sibling shape first; whatever it does or raises must not matter afterwards"""
+    sib, info = build(cx, sibling_spec(sp), prefix='S', **kw)
+    try:
+        op(sib, info)
+    except Exception:
+        pass
+    return sib
+
+
+def build(cx, sp, prefix='', **kw):
     degs, kvs = sp['degs'], sp['kvs']
     sizes = [len(k) - d - 1 for k, d in zip(kvs, degs)]
     Ks = [cx.consts(k) for k in kvs]
@@ -32,13 +53,13 @@ def build(cx, sp, **kw):
     for s in sizes:
         n *= s
     if sp.get('scaled'):
-        sc = cx.real('sc', lo=0)
+        sc = cx.real(prefix + 'sc', lo=0)
         cx.assume(sc > 0)
         P = [[sc * scaled_pattern(i, d, sizes) for d in range(sp['dim'])] for i in range(n)]
         W = [cx.const(F(1 + (i * 3) % 4, 2)) for i in range(n)] if sp['rational'] else None
     else:
-        P = cx.points('P', n, sp['dim'])
-        W = cx.reals('w', n, positive=True) if sp['rational'] else None
+        P = cx.points(prefix + 'P', n, sp['dim'])
+        W = cx.reals(prefix + 'w', n, positive=True) if sp['rational'] else None
     if sp['kind'] == 'curve':
         obj = geo.make_curve(cx, degs[0], Ks[0], P, W, **kw)
     elif sp['kind'] == 'surface':
